@@ -12,6 +12,7 @@ from . import steps
 from .rng import mix
 from .ser import canon_outcome, ser
 from .valgen import ValGen, Unsupported, corrupt
+from . import wire
 
 BUDGET = 400000
 TEXT_CODECS = ('jer', 'xer', 'gser')
@@ -26,6 +27,8 @@ class ProbeSet(object):
                      absent_additions=codec not in TEXT_CODECS)
         self.codec = codec
         self.probes = []   # (type_name, kind, value)
+        self.faults = {}   # probe index -> channel fault descriptors
+        fault_rng = random.Random(mix(seed, 'probe-faults', codec))
         types = sorted(gen.top_types(), key=lambda mt: mt[1])
 
         if len(types) > max_types:
@@ -44,6 +47,13 @@ class ProbeSet(object):
             for value in values:
                 self.probes.append((type_name, 'valid', value))
 
+            if values and codec != 'gser':
+                # How lenient the decoder is belongs to its behaviour: the
+                # first value's encoding also goes through two seeded
+                # channel faults.
+                self.faults[len(self.probes) - len(values)] = [
+                    wire.draw_fault(fault_rng, codec, 1.0) for _ in range(2)]
+
             if values:
                 self.probes.append((type_name, 'corrupt',
                                     corrupt(values[0], rng)))
@@ -58,7 +68,7 @@ class ProbeSet(object):
 
         out = []
 
-        for type_name, kind, value in self.probes:
+        for index, (type_name, kind, value) in enumerate(self.probes):
             if kind == 'extra':
                 outcome, _ = steps.call(
                     lambda: spec.encode(type_name, value,
@@ -104,6 +114,18 @@ class ProbeSet(object):
                     budget)
                 out.append('{}:m:{}'.format(type_name,
                                             canon_outcome(outcome)))
+
+            for number, fault in enumerate(self.faults.get(index, ())):
+                if len(encoded) > 2048:
+                    break
+
+                bad = wire.mutate(encoded, fault, encoded[::-1])
+                outcome, _ = steps.call(
+                    lambda: spec.decode(type_name, bad,
+                                        check_constraints=True),
+                    budget)
+                out.append('{}:f{}:{}'.format(type_name, number,
+                                              canon_outcome(outcome)[:400]))
 
             if self.codec in ('ber', 'der'):
                 for cut in (1, len(encoded)):
